@@ -75,8 +75,9 @@ func newLruCache(maxEntries int) *lruCache {
 }
 
 func (l *lruCache) Get(key string) (interface{}, bool) {
-	l.lock.RLock()
-	defer l.lock.RUnlock()
+	// lru.Cache.Get moves the entry to the front of its list, i.e. it writes.
+	l.lock.Lock()
+	defer l.lock.Unlock()
 
 	return l.cache.Get(key)
 }
